@@ -27,7 +27,7 @@ var resourceOf = map[string]string{
 	"ConfigMap": "configmaps", "Secret": "secrets", "Service": "services", "ServiceAccount": "serviceaccounts", "Pod": "pods",
 	"Job": "jobs", "Widget": "widgets", "Gadget": "gadgets", "Namespace": "namespaces", "Deployment": "deployments",
 	"CustomResourceDefinition": "customresourcedefinitions",
-	"ClusterRole": "clusterroles",
+	"ClusterRole": "clusterroles", "HorizontalPodAutoscaler": "horizontalpodautoscalers",
 }
 
 // ParseManifest decodes a YAML stream with yaml.v3's stream decoder (not
@@ -183,6 +183,9 @@ func (w *World) ClusterMatches(manifest, release string) []string {
 		}
 		var live map[string]any
 		json.Unmarshal(b, &live)
+		if i := strings.Index(d.APIVersion, "/"); i > 0 && sim.MultiVersion(d.APIVersion[:i]) {
+			live["apiVersion"] = d.APIVersion // one object served under every version of its group
+		}
 		if ok, why := Subset(d.Obj, live); !ok {
 			out = append(out, fmt.Sprintf("%s/%s: live%s", d.Kind, d.Name, why))
 		}
